@@ -587,8 +587,10 @@ class Extractor(object):
                 raise AnalysisError('Scope.__init__ vanished')
             # (the enclosing scope handed to the constructor is itself a freshly constructed scope: a constructor that reads its
             # parent's tables is interpreted on real, empty ones; what it copies is decided by the lookup scenarios of C05)
-            pstub = Obj(facts.classes['Scope'], {}, 'PARENTSCOPE')
-            it.call(FuncVal(sinit.rel, sinit.node, None, pstub, sinit.cls), [None, top], {})
+            # It stays the current scope's parent: one concrete context (a function, nothing bound in it so far, directly in the
+            # module) for a visit method that walks the scope chain
+            pstub = Obj(facts.classes.get('FuncScope') or facts.classes['Scope'], {}, 'PARENTSCOPE')
+            it.call(FuncVal(sinit.rel, sinit.node, None, pstub, sinit.cls), [top, top], {})
             it.call(FuncVal(sinit.rel, sinit.node, None, curscope, sinit.cls), [pstub, top], {})
             for holder, label in ((top, 'TOP'), (curscope, 'CURSCOPE')):
                 for k, v in list(holder.attrs.items()):
@@ -596,7 +598,7 @@ class Extractor(object):
                         holder.attrs[k] = SymSet('%s.%s' % (label, k))
             # the region the statement starts in: whatever supp's own Flow.__init__ gives a region (plus the attributes known here)
             cur = self.new_flow('CUR', curscope, [], 'CUR')
-            curscope.attrs.update({'parent': Unknown('CURSCOPE.parent'), 'top': top,
+            curscope.attrs.update({'parent': pstub, 'top': top,
                                    'locals': SymSet('CURSCOPE.locals'), 'globals': SymSet('CURSCOPE.globals'),
                                    'flow': cur})
             top.attrs['flow'] = Unknown('TOP.flow')
@@ -782,13 +784,20 @@ def all_summaries(repo, tier='quick'):
             # demand-driven refinement: where the code asked whether an arbitrary child is a node of class K, the largest shape is
             # generated again with a real K node at that position (its own children arbitrary)
             asked = {}
+            also = []
             for sm in out[cls]:
                 for ps in sm.paths:
                     for e in ps.effects:
                         if e[0] == 'asked-class':
                             for k in e[2]:
-                                asked.setdefault((e[1], k), sm)      # the first shape in which the question came up
-            for (path, k), sm in sorted(asked.items(), key=lambda x: x[0])[:12]:
+                                first = asked.setdefault((e[1], k), sm)      # the first shape in which the question came up
+                                # ... and the shapes in which a block or an optional child is absent (what the refined child means
+                                # for the construct can depend on it: `if a or (x := b):` without an else block)
+                                if first is not sm and (sm.variant.endswith('/len=0') or sm.variant.endswith('/present=False')) \
+                                        and (e[1], k, sm) not in also:
+                                    also.append((e[1], k, sm))
+            todo = sorted(asked.items(), key=lambda x: x[0])[:12] + [((p_, k_), sm_) for p_, k_, sm_ in also[:12]]
+            for (path, k), sm in todo:
                 ShapeBuilder.overrides = {path: k}
                 try:
                     b = ShapeBuilder(dict(sm.builder.choices), sm.builder.profile)
